@@ -23,7 +23,8 @@ def gen_rule(g):
     r = g.r
     bare = lambda k: (k, {"key": None, "index": None, "value": None, "condition": None, "list_condition": None, "map_condition": None, "label": None})  # noqa: E731
     k = r.choice([0, 1, 1, 2, 2, 3])
-    parts = [r.choice([("prim", r.choice(["a", "b", 0, 1, "k1", 1.5])), ("prim", r.choice(["a", "b"])), bare(r.choice(["map", "list", "molv"]))])
+    parts = [r.choice([("prim", r.choice(["a", "b", 0, 1, "k1", 1.5])), ("prim", r.choice(["a", "b", "0", "1", "1.5", "a/b", "", "-1", "x.y"])),
+                       bare(r.choice(["map", "list", "molv"]))])
              for _ in range(k)]
     while True:
         t = c11.gen_tree(g, "value", r.choice([0, 1, 2]))
